@@ -228,7 +228,7 @@ impl C11 {
                 let ev: &[StepEvent] = if first { events } else { &[] };
                 first = false;
                 let before = sh.violations.len();
-                judge_simplification(sh, ctx, rng, *p, *q, ev, &format!("simplify_expressions {role}"), max_bits, nsamples);
+                judge_simplification("C11", sh, ctx, rng, *p, *q, ev, &format!("simplify_expressions {role}"), max_bits, nsamples);
                 if sh.violations.len() > before {
                     return false;
                 }
